@@ -307,7 +307,7 @@ def _():
     return conditional(lt(f, k), f, 2.0 * k) * v * dx(degree=1)
 
 
-@reg("minmax_triangle", "c01 c08 c18")
+@reg("minmax_triangle", "c01 c08 c18 q")
 def _():
     m = mesh("triangle")
     V = space(m)
@@ -473,7 +473,7 @@ def _():
     return jump(u) * jump(v) * dS
 
 
-@reg("dS_jump_DG1_coef_triangle", "c02 c03 c05 c08 q", itypes=("interior_facet",))
+@reg("dS_jump_DG1_coef_triangle", "c02 c03 c05 c08 c18 q", itypes=("interior_facet",))
 def _():
     m = mesh("triangle")
     V = space(m, "DG", 1)
@@ -1026,3 +1026,41 @@ def _():
     v = TestFunction(V)
     f = ufl.Coefficient(V)
     return f("+") * v("-") * dS(metadata={"quadrature_rule": "vertex", "quadrature_degree": 1})
+
+
+@reg("logical_ops_triangle", "c01 c08 c18 c16 q")
+def _():
+    m = mesh("triangle")
+    V = space(m)
+    f = ufl.Coefficient(V)
+    k = ufl.Constant(m)
+    v = TestFunction(V)
+    c1 = ufl.And(lt(f, k), ufl.Not(ufl.gt(f, 2 * k)))
+    c2 = ufl.Or(ufl.ge(f, k), ufl.eq(k, 1.0))
+    return (conditional(c1, f, 1.0) + conditional(c2, 2.0, f * f) + conditional(ufl.ne(f, k), 1.0, 3.0) + conditional(ufl.le(f, 0.5), k, 0.0)) * v * dx(degree=1)
+
+
+@reg("bessel_triangle", "c01 c18")
+def _():
+    m = mesh("triangle")
+    V = space(m)
+    f = ufl.Coefficient(V)
+    v = TestFunction(V)
+    return (ufl.bessel_J(1, f) + ufl.bessel_Y(0, f)) * v * dx(degree=1)
+
+
+@reg("mathfuncs_triangle", "c01 c18 c09")
+def _():
+    m = mesh("triangle")
+    V = space(m)
+    f = ufl.Coefficient(V)
+    v = TestFunction(V)
+    return (ufl.ln(f) + ufl.erf(f) + ufl.acos(f) + ufl.asin(f) + ufl.cosh(f) + ufl.sinh(f) + ufl.atan2(f, 2.0) + f**2.5 + ufl.tan(f)) * v * dx(degree=1)
+
+
+@reg("inttable_ds_tetrahedron", "c02 c08 c18", itypes=("exterior_facet",))
+def _():
+    m = mesh("tetrahedron")
+    V = space(m)
+    v = TestFunction(V)
+    return ufl.MaxFacetEdgeLength(m) * v * ds
